@@ -489,7 +489,10 @@ impl Check for CmdCheck {
         // a random order while a few stay outstanding for a long time
         let mut wrng = rng.fork("wide");
         if !self.enumerate && law.is_none() && wrng.chance(1, if host.is_bridge() { 40 } else { 300 }) {
-            let n = if wrng.chance(1, if thorough { 12 } else { 25 }) { wrng.range(1030, 1100) } else { wrng.range(66, 170) } as usize;
+            // (more than the registry's initial 1024 slots: not in the quick tier of the checks that run every
+            // script on several hosts)
+            let big = if thorough { wrng.chance(1, 12) } else { self.diff_hosts.is_empty() && wrng.chance(1, 25) };
+            let n = if big { wrng.range(1030, 1100) } else { wrng.range(66, 170) } as usize;
             let mut wcfg = cfg.clone();
             wcfg.conts = false;
             let mut g = ProgGen::new(&mut wrng, wcfg, 100_000);
